@@ -20,10 +20,10 @@ import (
 )
 
 type report struct {
-	Files      []string `json:"files_rewritten"`
+	Files      []string       `json:"files_rewritten"`
 	Rewrites   map[string]int `json:"rewrites"`
-	Unmodelled []string `json:"unmodelled"`
-	Hooks      []string `json:"hooks_added"`
+	Unmodelled []string       `json:"unmodelled"`
+	Hooks      []string       `json:"hooks_added"`
 }
 
 var rep = report{Rewrites: map[string]int{}}
